@@ -20,17 +20,24 @@ PROP = {'drive': ['Font'],
                        'C01_time_roundtrip',
                        'C01_angle_round_idem'],
  'areas': [('font', 2000, 12000)],
- 'rule': 'distinct case lines; a font.meta/font.derive/font.fixed line is a complete sfnt.Font value (all scalar '
-         'fields + recipes for outlines, cmap, GDEF/GSUB/GPOS), a font.merge line a complete foreign table set '
-         '(one decoded record per table or "-"); all are non-trivial (every line exercises every field)',
+ 'rule': 'distinct case lines; a font.meta/font.nf/font.derive/font.fixed/font.twice line is a complete sfnt.Font value '
+         '(all scalar fields + recipes for outlines incl. CID-keyed font dicts and matrices, cmap subtables, GDEF/GSUB/GPOS '
+         'shapes), a font.merge line a complete foreign table set (one decoded record per table or "-"); all are '
+         'non-trivial (every line exercises every field)',
  'partial': ['Theorems cover the font-level plumbing only: FontMeta = every scalar field of sfnt.Font (names, '
-             'licensing strings, width/weight class, six style flags, code pages, version, both timestamps, '
-             'permissions, unitsPerEm, five vertical metrics, italic angle, underline metrics), advance widths, '
-             'glyph count, and the decisions about FontMatrix, cap/x-height fallback, GSUB/GPOS synthesis. Glyph '
-             'outlines, glyph names, cmap content, GDEF/GSUB/GPOS content and the CFF private data are opaque '
-             'tokens in the model: their survival is checked on the real code only (token = hash of the '
-             're-encoded data in streams font.meta/font.merge, byte equality of generation 2 and 3 in font.fixed) '
-             'and is the subject of C08/C09/C11/C13.',
+             'licensing strings as code-point lists - any Unicode scalar value incl. astral ones -, width/weight class, '
+             'six style flags, code pages, version, both timestamps, permissions, unitsPerEm, five vertical metrics, '
+             'italic angle, underline metrics), advance widths, glyph count, and the decisions about FontMatrix, '
+             'cap/x-height fallback, GSUB/GPOS synthesis. Glyph outlines, glyph names, CID font dicts and their matrices, '
+             'cmap content, GDEF/GSUB/GPOS content and the CFF private data are opaque tokens in the model (token = digest '
+             'of the re-encoded data plus presence and the numbers of scripts/features/lookups resp. classes): their '
+             'survival is checked on the real code by the streams font.meta/font.nf/font.merge/font.fixed and is proved, '
+             'per table, in C08/C09/C11/C13; for head, OS/2, post header, maxp, name strings, cmap and glyf/loca the '
+             'abstract codec is instantiated with the concrete codecs (C01_codec_assumptions_discharged).',
+             'Strings: the name-table byte codec (UTF-16 with surrogate pairs, Mac Roman, shared string storage, 64 KiB '
+             'limit) is C14; here it is exercised on the real code with astral code points, BMP boundaries (U+D7FF, '
+             'U+E000, U+FFFF, U+10FFFF), non-MacRoman text, empty strings, long strings (12000 code points in the '
+             'thorough tier) and equal strings in several fields, each field drawn independently.',
              'C01_fixed_point_partial holds for every accepted, decoder-produced table set that is in none of the '
              'open finding classes (structure Stable, one clause per class): C01-bold-word (Subfamily() says "Bold" '
              'while IsBold is clear: weight 650..749, family name without "Bold"; negation proved as '
@@ -45,9 +52,13 @@ PROP = {'drive': ['Font'],
              'Present-but-empty layout tables (no scripts/features/lookups, a script without features, a feature '
              'without lookups, an unreachable lookup, nil script map) survive Write/Read since the gtab fix d444265 and '
              'take part in every stream; they are compared by presence and by number of scripts/features/lookups.',
-             'Byte-level clauses (Write twice gives the same bytes; generation 2 = generation 3 byte for byte) are '
-             'checked by the D stream font.fixed on the real code, not proved: the model has no bytes. Map-order '
-             'independence of the encoders is C03/C08/C09/C14.',
+             'Byte-level clauses are checked on the real code, not proved (the model has no bytes): generation 2 = '
+             'generation 3 byte for byte (font.fixed) and repeated Write of every generated font and of the font Read '
+             'returns for it (font.twice: 3 writes each, 60 when a map-keyed structure has keys colliding on a prefix of '
+             'its sort key - several Mac cmap subtables, several languages of a script, kerning pairs with a common first '
+             'glyph, multi-glyph GDEF classes -, 200 on a sample). Name records of several languages cannot be produced '
+             'through Font.Write (it builds the en / en-US pair itself). Map-order independence of the encoders as '
+             'theorems is C03/C08/C09/C14.',
              'Float-valued inputs are exact dyadic rationals in the model; out-of-range float->int conversions '
              '(|x| >= 2^15 for widths/underline, |angle| >= 2^15 degrees) are modelled as amd64 does them and lie '
              'outside the stated domain.'],
